@@ -69,4 +69,12 @@ impl FungibleAllowList for ExampleContract {
 impl AccessControl for ExampleContract {}
 
 #[contractimpl(contracttrait)]
-impl FungibleBurnable for ExampleContract {}
+impl FungibleBurnable for ExampleContract {
+    fn burn(e: &Env, from: Address, amount: i128) {
+        AllowList::burn(e, &from, amount);
+    }
+
+    fn burn_from(e: &Env, spender: Address, from: Address, amount: i128) {
+        AllowList::burn_from(e, &spender, &from, amount);
+    }
+}
